@@ -399,7 +399,6 @@ def distance_wei_floyd(adjacency, transform=None):
 
     n = adjacency.shape[1]
 
-    hops = np.array(adjacency != 0).astype('float')
     Pmat = np.repeat(np.atleast_2d(np.arange(0, n)), n, 0)
 
     #print(SPL)
@@ -409,15 +408,27 @@ def distance_wei_floyd(adjacency, transform=None):
 
         path = SPL > i2k_k2j
         i, j = np.where(path)
-        hops[path] = hops[i, k] + hops[k, j]
         Pmat[path] = Pmat[i, k]
 
         SPL = np.min(np.stack([SPL, i2k_k2j], 2), 2)
 
     I = np.eye(n) > 0
     SPL[I] = 0
+    Pmat[I] = 0
 
-    hops[I], Pmat[I] = 0, 0
+    # number of edges of the path that Pmat encodes: counted by following the
+    # next-hop table, so that hops and Pmat agree even when rounding makes two
+    # routes of equal length compare as different
+    target = np.repeat(np.atleast_2d(np.arange(0, n)), n, 0)
+    node = target.T.copy()
+    hops = np.zeros((n, n))
+    walking = np.logical_and(np.isfinite(SPL), node != target)
+    for step in range(n):
+        if not np.any(walking):
+            break
+        hops[walking] += 1
+        node[walking] = Pmat[node[walking], target[walking]]
+        walking = np.logical_and(walking, node != target)
 
     return SPL, hops, Pmat
 
